@@ -26,6 +26,7 @@ for v in FMT:
     if v[1] not in 'Qq':       # the 64-bit formats are left out of the canonical lemma (their byte-identity obligation does not discharge in the budget)
         PROGRAMS.append(dict(program='canonical', cls='FormatField', tags=('C02',), variant=v))
 PROGRAMS.append(dict(program='lazy_list', cls='LazyArray', tags=('C16',)))
+PROGRAMS.append(dict(program='lazy_struct', cls='LazyStruct', tags=('C16',)))
 from .classes import VariantDict  # noqa
 for _u in (1, 2):
     PROGRAMS.append(dict(program='canonical', cls='NullTerminated', tags=('C02',), variant=VariantDict(term_len=_u)))
@@ -162,3 +163,26 @@ HYPOTHESES += ['C01, Struct only - member names are pairwise distinct and none i
                'C16 only - measurable or says so: an element that parses either answers _actualsize or raises SizeofError']
 from . import lazylemmas as _lzl  # noqa
 ghost.POST_HINTS['LazyArray'] = _lzl.post_hints
+
+
+def _lazystruct_domain(eng, st):
+    """hypotheses of C16 for LazyStruct: no member has cross references; member names are pairwise distinct; the name table of
+    the struct maps names to member positions (what LazyStruct.__init__ builds)"""
+    from .lazystruct import scope_independence_of_members
+    from .unions import _names_distinct
+    selfv = st.env['self']
+    sl = selfv.fields['subcons'].ident
+    n = t.app('sl_len', t.INT, sl)
+    st.assume(scope_independence_of_members(sl))
+    st.assume(_names_distinct(sl, n))
+    from .lazylemmas import no_stop_members
+    st.assume(no_stop_members(sl, sorted(eng.src.exc_code[x] for x in eng.src.exc_descendants('StopFieldError'))))
+    m = selfv.fields['_subconsindexes']
+    k = t.var('lzk!', t.VAL)
+    st.assume(t.forall([k], t.implies(t.app('map_has', t.BOOL, m.ident, k),
+              t.and_(t.app('(_ is VInt)', t.BOOL, t.app('map_get', t.VAL, m.ident, k)), t.le(t.ZERO, t.app('ival', t.INT, t.app('map_get', t.VAL, m.ident, k))),
+                     t.lt(t.app('ival', t.INT, t.app('map_get', t.VAL, m.ident, k)), n))), pats=[[t.app('map_get', t.VAL, m.ident, k)]]))
+
+
+DOMAIN['LazyStruct'] = _lazystruct_domain
+HYPOTHESES += ['C16, LazyStruct only - member names pairwise distinct; no member ends the eager parse early with StopFieldError']
